@@ -588,3 +588,45 @@ def ctxexprs():
                     'keyword' if '=' in ce else 'positional')
             yield f'cx{k}', f'ctxexpr/{amb}/{form}', src
             k += 1
+
+
+# ---------------------------------------------------------------------------
+# Integer-producing forms (enumerate / range / len / size / loop indices): the index is observed
+# without an arithmetic node, on lists longer than 2**p, under contexts of precision p = 1, 2
+
+TINY = ['fp.MPFloatContext(1)', 'fp.MPFloatContext(2)', 'fp.IEEEContext(2, 4)', 'fp.MPFloatContext(1, fp.RM.RTZ)']
+
+INT_FORMS = [
+    ('enumerate/comp', ['return [i for i, x in enumerate(us)]']),
+    ('enumerate/value', ['return enumerate(us)']),
+    ('enumerate/index', ['ys = [0 for t in us]', 'for i, x in enumerate(us):', '    ys[i] = x', 'return ys']),
+    ('enumerate/read', ['ys = [t for t in us]', 'zs = [0 for t in us]', 'for i, x in enumerate(us):',
+                        '    zs[i] = ys[i]', 'return zs']),
+    ('enumerate/bind', ['t = 0', 'for i, x in enumerate(us):', '    t = i', 'return t']),
+    ('enumerate/zip', ['return [(i, y) for (i, x), y in zip(enumerate(us), us)]']),
+    ('range/value', ['return range(len(us))']),
+    ('range/index', ['return [us[i] for i in range(len(us))]']),
+    ('range/bind', ['t = 0', 'for i in range(len(us)):', '    t = i', 'return t']),
+    ('range/2', ['return range(1, len(us))']),
+    ('range/3', ['return (range(1, len(us), 2), range(len(us), 0, -1))']),
+    ('len/value', ['return len(us)']),
+    ('len/list', ['return [len(us), len(us[1:]), len([x for x in us])]']),
+    ('len/slice', ['return us[1:len(us)]']),
+    ('size/value', ['return fp.size(us, 0)']),
+    ('dim/value', ['return fp.dim([[us]])']),
+]
+
+
+def intforms():
+    """yields (entry name, label, source, ambient, context text)"""
+    k = 0
+    for label, body in INT_FORMS:
+        plain = ''.join(f'    {l}\n' for l in body)
+        yield f'ix{k}', f'{label}/caller', f'@fp.fpy\ndef ix{k}(u, v, us):\n' + plain, 'caller', None
+        k += 1
+        for c in TINY:
+            yield f'ix{k}', f'{label}/declared', f'@fp.fpy(ctx={c})\ndef ix{k}(u, v, us):\n' + plain, 'declared', c
+            k += 1
+            inner = ''.join(f'        {l}\n' for l in body)
+            yield f'ix{k}', f'{label}/with', f'@fp.fpy\ndef ix{k}(u, v, us):\n    with {c}:\n' + inner, 'with', c
+            k += 1
